@@ -17,6 +17,7 @@ func properties() map[string]*PropertySpec {
 			{Name: "H_C16_convert_roundtrip", Native: true, Reach: []string{"roundtrip"}, Bound: "every string shorter than 2^31 bytes (all five length-octet classes)"},
 			{Name: "H_C16_sid", Native: true, Reach: []string{"sid"}, Bound: "all 2^8 x 2^16 arguments"},
 			{Name: "H_C16_sid_total", Native: true, Reach: []string{"returned"}, Bound: "arbitrary bytes, length <= 16", Tweak: func(c *HarnessCfg, tier string) { c.ConcretizeMax = 16 }},
+			{Name: "H_C16_zeromux", Native: true, Reach: []string{"zero mux"}, Bound: "every kind of route registration on a zero-value Mux (not built by NewMux), then one request served"},
 			{Name: "H_C16_entry", Native: true, Reach: []string{"entry"}, Bound: "<= 3 attributes, every iteration order, symbolic values"},
 			{Name: "H_C16_responses", Native: true, Reach: []string{"constructed"}, Bound: "6 constructors x every sequence of <= 3 options drawn from 5 options and nil"},
 			{Name: "H_C16_controls", Native: true, Reach: []string{"constructed"}, Bound: "7 constructors x every sequence of <= 3 options drawn from 5 options and nil; all uint values"},
@@ -284,6 +285,7 @@ func properties() map[string]*PropertySpec {
 				Bound: "a StartTLS request pipelined behind a request whose handler may still be in flight and followed by another request; spawn-order schedules; the same two partial-order queries per bufio.Writer object (Write, Flush, Reset)"},
 			{Name: "H_C05_shutdown_notice", Native: true, Reach: []string{"shutdown notice"}, PO: poC05,
 				Bound: "1..2 handlers in flight when the shutdown context is cancelled between two reads: the notice of disconnection vs. the handlers' responses; spawn-order schedules; the same partial-order queries"},
+			nat("H_C05_bigframes", "big frame", "one response with a concrete diagnostic message of 100 B ... 70 000 B (sizes around 4 KiB, 16 KiB, 64 KiB)", ""),
 			nat("H_C05_step", "step", "one Write from an empty buffer and a free lock, write succeeds or fails, strings < 24 bytes", ""),
 		}})
 	poRaces := func(p *PathResult, po *PO) []POFinding {
@@ -317,6 +319,9 @@ func properties() map[string]*PropertySpec {
 		Harnesses: []HarnessSpec{
 			{Name: "H_C02_readRequest", Native: true, Reach: []string{"returned", "decoded"},
 				Bound: "symbolic wire tree: depth <= 5, children: envelope <= 4, request <= 9, controls <= 1 x <= 4 children, lists <= 2-3; control value re-decoded as a symbolic tree of depth 3, width 2; every node's class/type/tag/content unconstrained",
+				Tweak: func(c *HarnessCfg, tier string) { c.DecodeWidths = "def=2" }},
+			{Name: "H_C02_modify_deep", Native: true, Reach: []string{"returned", "decoded"},
+				Bound: "one level deeper (depth 6) for a narrow tree: envelope <= 2, operation <= 2, one change, its PartialAttribute <= 3 children with <= 2 children each (the values inside a change's SETs are nodes too)",
 				Tweak: func(c *HarnessCfg, tier string) { c.DecodeWidths = "def=2" }},
 			{Name: "H_C02_truncated", Native: true, Reach: []string{"truncated"},
 				Bound: "a stream of 0..2 arbitrary bytes followed by EOF (not a complete element): read error, no panic; the bytes are visible to gldap through bufio.Reader.Peek"},
